@@ -168,3 +168,145 @@ Theorem C16_bash_cur_is_subcommand_refuted :
               compgen_W l [115] = [[115]; [115; 120]] /\ bash_complete t [[112]; [115]] = Some [].
 Proof. exact bash_cur_is_subcommand_refuted. Qed.
 Print Assumptions C16_bash_cur_is_subcommand_refuted.
+
+(* ---- powershell / elvish generator models ---- *)
+(** Byte-exact models of clap_complete/src/aot/shells/{elvish,powershell}.rs (Complete/ElvishModel.v,
+    Complete/PowershellModel.v; the texts of the tree are kept in a [TextTree.ttree]; the common table
+    specification is [PathTable.gi]).  Names are qualified: the two model files reuse the Rust names. *)
+From ClapModel Require Complete.TextTree Complete.PathTable Complete.ElvishModel Complete.ElvishProofs
+  Complete.PowershellModel Complete.PowershellProofs.
+
+(** the hypotheses of the coverage theorems below are satisfiable by a built two-level tree *)
+Theorem C16_table_covers_nonvacuous :
+  exists c bin b ws ns n a s0 s l0 sc w,
+    build (set_bin_name c bin) = Some b /\ c_bin b = Some bin /\ bin <> [] /\ bins_built b /\
+    reach b ws ns n /\ ws <> [] /\
+    In a (c_args n) /\ a_is_positional a = false /\ a_short a = Some s0 /\ In (s, true) (a_short_aliases a) /\
+    a_long a = Some l0 /\ In sc (c_subs n) /\ In w (get_name_and_visible_aliases sc).
+Proof. exact PathTable.covers_hyps_example. Qed.
+Print Assumptions C16_table_covers_nonvacuous.
+
+(** elvish: on a tree whose nodes all have bin names (what [Command::build] establishes) the
+    transcription of elvish.rs reaches no panic site and its output is the fixed text around the
+    table specification *)
+Theorem C16_elvish_model_is_table : forall c t bin,
+  c_bin c = Some bin -> bins_built c ->
+  ElvishModel.generate c t = Some (ElvishModel.render bin (PathTable.gi ElvishProofs.el_fmt c t [])).
+Proof. exact ElvishProofs.generate_spec. Qed.
+Print Assumptions C16_elvish_model_is_table.
+
+Theorem C16_elvish_total : forall c b t,
+  build c = Some b -> c_bin b <> None -> exists s, ElvishModel.generate b t = Some s.
+Proof. exact ElvishProofs.generate_total. Qed.
+Print Assumptions C16_elvish_total.
+
+Theorem C16_elvish_deterministic : forall c1 c2 t1 t2 b1 b2,
+  c1 = c2 -> t1 = t2 -> b1 = b2 ->
+  ElvishModel.generate_elvish c1 t1 b1 = ElvishModel.generate_elvish c2 t2 b2.
+Proof. exact ElvishProofs.generate_elvish_deterministic. Qed.
+Print Assumptions C16_elvish_deterministic.
+
+(** elvish, EVERY depth: for every path [ws] of names or visible aliases from the root to a node [n]
+    the script contains the block keyed [bin;w1;...;wk]; that block has an entry [cand -s '...'] for
+    the short and every visible short alias of every option or flag of [n] that has a short, an entry
+    [cand --l '...'] for the long and every visible alias of every one that has a long, and an entry
+    [cand w '...'] for every name and visible alias of every subcommand of [n] (hidden ones included).
+    Class boundaries: aliases of an argument without the primary spelling (finding
+    alias-without-primary), possible values (finding values-not-in-powershell-elvish), an empty bin
+    name -- each with a refutation witness below. *)
+Theorem C16_elvish_covers : forall c t bin ws ns n,
+  c_bin c = Some bin -> bin <> [] -> bins_built c -> reach c ws ns n ->
+  exists script tn,
+    ElvishModel.generate c t = Some script /\
+    PathTable.infix (ElvishModel.case_block (PathTable.path_key bin ws) (PathTable.entries ElvishProofs.el_fmt n tn)) script /\
+    (forall a s0 s, In a (c_args n) -> a_is_positional a = false -> a_short a = Some s0 ->
+       (s = s0 \/ In (s, true) (a_short_aliases a)) ->
+       exists tip, PathTable.infix (ElvishProofs.el_short s tip) (PathTable.entries ElvishProofs.el_fmt n tn)) /\
+    (forall a l0 l, In a (c_args n) -> a_is_positional a = false -> a_long a = Some l0 ->
+       (l = l0 \/ In (l, true) (a_aliases a)) ->
+       exists tip, PathTable.infix (ElvishProofs.el_long l tip) (PathTable.entries ElvishProofs.el_fmt n tn)) /\
+    (forall sc w, In sc (c_subs n) -> In w (get_name_and_visible_aliases sc) ->
+       exists tip, PathTable.infix (ElvishProofs.el_sub w tip) (PathTable.entries ElvishProofs.el_fmt n tn)).
+Proof. exact ElvishProofs.elvish_covers. Qed.
+Print Assumptions C16_elvish_covers.
+
+Theorem C16_elvish_alias_without_primary_refuted :
+  exists c t bin a s script, In a (c_args c) /\ a_is_positional a = false /\ In (s, true) (a_short_aliases a) /\
+    ElvishModel.generate_elvish c t bin = Some script /\
+    forall tip, ~ PathTable.infix (ElvishProofs.el_short s tip) script.
+Proof. exact ElvishProofs.elvish_alias_without_primary_refuted. Qed.
+Print Assumptions C16_elvish_alias_without_primary_refuted.
+
+Theorem C16_elvish_values_refuted :
+  exists c t bin a v script, In a (c_args c) /\ possible_values a = Some [mkPv v false] /\
+    ElvishModel.generate_elvish c t bin = Some script /\ ~ PathTable.infix v script.
+Proof. exact ElvishProofs.elvish_values_refuted. Qed.
+Print Assumptions C16_elvish_values_refuted.
+
+Theorem C16_elvish_empty_bin_refuted :
+  exists c t sc script, ElvishModel.generate_elvish c t [] = Some script /\ In sc (c_subs c) /\
+    forall es, ~ PathTable.infix (ElvishModel.case_block (PathTable.path_key [] [c_name sc]) es) script.
+Proof. exact ElvishProofs.elvish_empty_bin_refuted. Qed.
+Print Assumptions C16_elvish_empty_bin_refuted.
+
+(** PowerShell: the same four statements, for every [is_uppercase : N -> bool] (Rust's
+    [char::is_uppercase], a parameter of the model) *)
+Theorem C16_powershell_model_is_table : forall up c t bin,
+  c_bin c = Some bin -> bins_built c ->
+  PowershellModel.generate up c t =
+  Some (PowershellModel.render bin (PathTable.gi (PowershellProofs.ps_fmt up) c t [])).
+Proof. exact PowershellProofs.generate_spec. Qed.
+Print Assumptions C16_powershell_model_is_table.
+
+Theorem C16_powershell_total : forall up c b t,
+  build c = Some b -> c_bin b <> None -> exists s, PowershellModel.generate up b t = Some s.
+Proof. exact PowershellProofs.generate_total. Qed.
+Print Assumptions C16_powershell_total.
+
+Theorem C16_powershell_deterministic : forall up c1 c2 t1 t2 b1 b2,
+  c1 = c2 -> t1 = t2 -> b1 = b2 ->
+  PowershellModel.generate_powershell up c1 t1 b1 = PowershellModel.generate_powershell up c2 t2 b2.
+Proof. exact PowershellProofs.generate_powershell_deterministic. Qed.
+Print Assumptions C16_powershell_deterministic.
+
+Theorem C16_powershell_covers : forall up c t bin ws ns n,
+  c_bin c = Some bin -> bin <> [] -> bins_built c -> reach c ws ns n ->
+  exists script tn,
+    PowershellModel.generate up c t = Some script /\
+    PathTable.infix (PowershellModel.case_block (PathTable.path_key bin ws)
+                       (PathTable.entries (PowershellProofs.ps_fmt up) n tn)) script /\
+    (forall a s0 s, In a (c_args n) -> a_is_positional a = false -> a_short a = Some s0 ->
+       (s = s0 \/ In (s, true) (a_short_aliases a)) ->
+       exists tip, PathTable.infix (PowershellProofs.ps_short up s tip)
+                     (PathTable.entries (PowershellProofs.ps_fmt up) n tn)) /\
+    (forall a l0 l, In a (c_args n) -> a_is_positional a = false -> a_long a = Some l0 ->
+       (l = l0 \/ In (l, true) (a_aliases a)) ->
+       exists tip, PathTable.infix (PowershellProofs.ps_long l tip)
+                     (PathTable.entries (PowershellProofs.ps_fmt up) n tn)) /\
+    (forall sc w, In sc (c_subs n) -> In w (get_name_and_visible_aliases sc) ->
+       exists tip, PathTable.infix (PowershellProofs.ps_sub w tip)
+                     (PathTable.entries (PowershellProofs.ps_fmt up) n tn)).
+Proof. exact PowershellProofs.powershell_covers. Qed.
+Print Assumptions C16_powershell_covers.
+
+Theorem C16_powershell_alias_without_primary_refuted :
+  exists c t bin a s script, In a (c_args c) /\ a_is_positional a = false /\ In (s, true) (a_short_aliases a) /\
+    PowershellModel.generate_powershell PowershellProofs.ascii_upper c t bin = Some script /\
+    forall tip, ~ PathTable.infix (PowershellProofs.ps_short PowershellProofs.ascii_upper s tip) script.
+Proof. exact PowershellProofs.powershell_alias_without_primary_refuted. Qed.
+Print Assumptions C16_powershell_alias_without_primary_refuted.
+
+Theorem C16_powershell_values_refuted :
+  exists c t bin a v script, In a (c_args c) /\ possible_values a = Some [mkPv v false] /\
+    PowershellModel.generate_powershell PowershellProofs.ascii_upper c t bin = Some script /\
+    ~ PathTable.infix v script.
+Proof. exact PowershellProofs.powershell_values_refuted. Qed.
+Print Assumptions C16_powershell_values_refuted.
+
+Theorem C16_powershell_empty_bin_refuted :
+  exists c t sc script,
+    PowershellModel.generate_powershell PowershellProofs.ascii_upper c t [] = Some script /\ In sc (c_subs c) /\
+    forall es, ~ PathTable.infix (PowershellModel.case_block (PathTable.path_key [] [c_name sc]) es) script.
+Proof. exact PowershellProofs.powershell_empty_bin_refuted. Qed.
+Print Assumptions C16_powershell_empty_bin_refuted.
+(* ---- end of the powershell / elvish block ---- *)
